@@ -11,6 +11,8 @@ CHECK_DEADLOCK FALSE
 HEAD = """SPECIFICATION TSpec
 CONSTANTS N = %d Inf = 16 MaxFaults = 99 Pfx = {1,2,3,4} Thresh = 100 TraceFile = "@TRACE@"
 """
+ADV_HEAD = 'SPECIFICATION TSpec\nCONSTANTS DeadInt = 30 Life = 4 Fresh = 999 Dev = {} TraceFile = "@TRACE@"\n'
+ADV_PROPS = ["T_nopanic", "T_C18a_state", "T_C18a_pub", "T_C18a_fetch", "T_C18a_data", "T_C18a_rib", "T_C18a_dead", "T_C18a_noresurrect", "T_C18a_settle"]
 INVS = {"C18": ["I_C18adv", "I_C18choice", "I_C18fix", "I_C18bound"], "C19": ["I_C19inst", "I_C19log", "I_C19seq"]}
 
 
@@ -33,7 +35,8 @@ def mc_plans(pid, th):
 
 def nontrivial(pid, ex):
     if pid == "C18":
-        return any(r.get("ev") in ("down", "dead") for r in ex)
+        return any(r.get("ev") in ("down", "dead") for r in ex) or any(r.get("ev") == "rdead" and r.get("removed") for r in ex) \
+            or any(r.get("ev") == "rdata" and r.get("n", 0) > 0 for r in ex)
     return any(r.get("ev") == "sync" and len(r.get("set", [])) > 0 for r in ex) or any(len(r.get("cmds", [])) > 0 for r in ex) \
         or any(r.get("ev") == "dlv" and any(len(u) > 0 for u in r.get("upd", [])) for r in ex) \
         or any(r.get("ev") == "attempt" and not r.get("ok") for r in ex)
@@ -62,6 +65,16 @@ def run(pid, tier, replay=None):
         bg.start()
     binary = V.build_harness(wd)
     traces = []   # (n, rows)
+    if replay and any(r.get("ev") in ("pchange", "rsync") for r in V.read_ndjson(replay)):      # a segment of the adv stage
+        V.run_harness(binary, "TestDvAdvReplay", {"VERIF_OUT": wd, "VERIF_REPLAY": os.path.abspath(replay)})
+        rows = V.read_ndjson(os.path.join(wd, "dvadv_replay.ndjson"))
+        r = V.validate_trace(wd, rows, "DVAdvTrace.tla", ADV_HEAD, [p for p in ADV_PROPS if p != "T_C18a_settle"], invariants=["I_C18a_quiet"], label="advr", timeout=600)
+        if r["blocked"]:
+            raise V.Machinery("advertisement-exchange trace not followable (drift): %s" % json.dumps(r["blocked"])[:1500])
+        for v in r["violations"]:
+            path = V.save_violation(pid, v["segment"], {"rule": v["rule"], "event": v["segment"][-1], "model_state": v["state"]})
+            print("VIOLATION property=%s replay=%s" % (pid, path))
+        return 1 if r["violations"] else 0
     if replay and any(r.get("ev") == "issue" for r in V.read_ndjson(replay)):      # a segment of the nfdc stage
         V.run_harness(binary, "TestNfdcReplay", {"VERIF_OUT": wd, "VERIF_REPLAY": os.path.abspath(replay)})
         rows = V.read_ndjson(os.path.join(wd, "nfdc_replay.ndjson"))
@@ -126,6 +139,32 @@ def run(pid, tier, replay=None):
         accepted += r["accepted_execs"]
         events += r["events"]
         viols += r["violations"]
+    # ---- how advertisements travel (spec/dv/DVAdvert.tla): Sync Interests, debounced fetches, the engine's pending table,
+    #      queued ribUpdate goroutines against the dead-neighbour check
+    if pid == "C18" and not replay:
+        AD_MC = ("SPECIFICATION MSpec\nCONSTANTS DeadInt = 3 Life = 1 Fresh = 1 Dev = %s MaxChanges = 2 MaxTime = %d\nVIEW MView\nCONSTRAINT GenBound\n"
+                 "INVARIANTS Sane QuiescentCorrect\nPROPERTIES NoResurrect\nCHECK_DEADLOCK FALSE\n")
+        with open(os.path.join(wd, "mc_adv.cfg"), "w") as f:
+            f.write(AD_MC % ("{}", 5 if th else 4))
+        mc["adv"] = V.tlc(wd, "DVAdvertMC.tla", "mc_adv.cfg", workers=8, timeout=3000)
+        for dev in ('{"AcceptOlder"}', '{"KeepAdvertOnRemove"}'):       # negative controls: both deviations must be refuted
+            with open(os.path.join(wd, "mc_adv_neg.cfg"), "w") as f:
+                f.write(AD_MC % (dev, 4))
+            neg = V.tlc(wd, "DVAdvertMC.tla", "mc_adv_neg.cfg", workers=2, timeout=600)
+            if neg.status != "violation":
+                raise V.Machinery("negative control %s of DVAdvert not refuted: %s\n%s" % (dev, neg.status, neg.out[-1500:]))
+        V.run_harness(binary, "TestDvAdvGen", {"VERIF_OUT": wd, "VERIF_N": 600 if th else 60, "VERIF_LEN": 100}, timeout=3000)
+        rows = V.read_ndjson(os.path.join(wd, "dvadv.ndjson"))
+        ad_execs = V.split_executions(rows)
+        execs_all += ad_execs
+        for ci in range(0, len(ad_execs), 150):
+            ch = [r for (_, ex) in ad_execs[ci:ci + 150] for r in ex]
+            r = V.validate_trace(wd, ch, "DVAdvTrace.tla", ADV_HEAD, ADV_PROPS, invariants=["I_C18a_quiet"], label="adv%d" % ci, timeout=3000)
+            if r["blocked"]:
+                raise V.Machinery("advertisement-exchange trace not followable (drift): %s" % json.dumps(r["blocked"])[:1500])
+            accepted += r["accepted_execs"]
+            events += r["events"]
+            viols += r["violations"]
     # ---- the command worker between the installer and the forwarder (spec/dv/NfdcQueue.tla)
     if pid == "C19" and not replay:
         NQ_MC = "SPECIFICATION MSpec\nCONSTANTS Dev = %s MaxCmds = %d MaxFail = %d\nVIEW MView\nINVARIANTS FwdIsIssueOrder InstalledAtQuiescence\nPROPERTIES P_C19queue\nCHECK_DEADLOCK FALSE\n"
